@@ -260,6 +260,27 @@ Fixpoint has_colobj (v : val) : bool :=
   | _ => false
   end.
 
+(** letters, digits, underscore and dots, not starting with a digit or a dot: what parses as a (qualified) column name *)
+Definition name_char (a : ascii) : bool :=
+  let n := nat_of_ascii a in
+  (((65 <=? n) && (n <=? 90)) || ((97 <=? n) && (n <=? 122)) || ((48 <=? n) && (n <=? 57)) || (n =? 95) || (n =? 46))%nat.
+Fixpoint all_chars (f : ascii -> bool) (s : string) : bool :=
+  match s with EmptyString => true | String a r => f a && all_chars f r end.
+Definition lower_bare (s : string) : bool :=
+  match s with
+  | EmptyString => false
+  | String a _ =>
+      negb ((48 <=? nat_of_ascii a) && (nat_of_ascii a <=? 57))%nat &&
+      all_chars (fun a => let n := nat_of_ascii a in
+                          (((97 <=? n) && (n <=? 122)) || ((48 <=? n) && (n <=? 57)) || (n =? 95))%nat) s
+  end.
+Definition plain_name (s : string) : bool :=
+  match s with
+  | EmptyString => false
+  | String a _ => let n := nat_of_ascii a in
+                  negb (((48 <=? n) && (n <=? 57)) || (n =? 46))%nat && all_chars name_char s
+  end.
+
 Section Sem.
   Variable P : prims.
   Variable T : table.
@@ -280,10 +301,14 @@ Section Sem.
     | VOpq n => VCol (NN "col-of-opaque" [n])
     | _ => VUnk "col() of a non-data value"
     end.
-  (** Column(v) *)
+  (** Column(v): a str is PARSED as SQL (sqlglot.maybe_parse).  For a (possibly qualified) plain identifier that is the
+      column reference col() builds; any other text ('event time', 'end-ts', 'sum(b)') is read as an expression, i.e.
+      as something else than the column of that name *)
   Definition ctor (v : val) : val :=
     match v with
-    | VStr s => if ctor_str_is_parsed P then VCol (NCol s) else VCol (NLit s)
+    | VStr s => if ctor_str_is_parsed P
+                then (if plain_name s then VCol (NCol s) else VCol (NN "parsed-as-sql" [NRaw s]))
+                else VCol (NLit s)
     | VOpq n => VCol (NN "ctor-of-opaque" [n])
     | _ => to_col v
     end.
@@ -591,6 +616,15 @@ Section Sem.
       if forallb (fun v => match v with VStr _ | VInt _ | VBool _ | VNone | VOpq _ | VFloat _ => true | _ => false end) args
       then mkopq (NN "fstr" (map as_raw args)) else VUnk "f-string over objects"
     else if String.eqb p "nameerror" then VErr "NameError"
+    else if String.eqb p "modconst" then      (* a module-level literal (dict / str / number table) *)
+      match args with [VStr n] => mkopq (NN "modconst" [NRaw n]) | _ => VUnk "modconst" end
+    else if String.eqb p "pure" then          (* re.sub / re.escape over str arguments *)
+      match args with
+      | VStr n :: rest =>
+          if forallb (fun v => match v with VStr _ | VInt _ | VNone | VBool _ | VOpq _ => true | _ => false end) rest
+          then mkopq (NN ("pure:" ++ n) (map as_raw rest)) else VUnk "pure function over objects"
+      | _ => VUnk "pure"
+      end
     else if String.eqb p "exp" then       (* free constructor / helper of sqlglot: first arg is its dotted name *)
       match args with
       | VStr name :: rest =>
@@ -622,7 +656,11 @@ Section Sem.
           (* formats the str; for a Column it formats value.expression.this: the column's NAME / the literal's text *)
           let fa (v : val) : node :=
             match v with
-            | VCol (NCol s) | VCol (NLit s) => if fmt_col_is_name P then NRaw s else NN "column-object" [NCol s]
+            | VCol (NLit s) => if fmt_col_is_name P then NRaw s else NN "column-object" [NLit s]
+            | VCol (NCol s) =>
+                (* the identifier as rendered after normalisation: the name itself only for a lower-case bare name *)
+                if fmt_col_is_name P then (if lower_bare s then NRaw s else NN "rendered-identifier" [NRaw s])
+                else NN "column-object" [NCol s]
             | _ => as_raw v
             end in
           VExp (NN ("session." ++ m) (map fa args))
@@ -955,6 +993,20 @@ Section Verdict.
     unfold all_ok in Hall. rewrite forallb_forall in Hall.
     specialize (Hall e He). rewrite Hb in Hall. rewrite forallb_forall in Hall. specialize (Hall c Hc).
     rewrite judge_spec in Hall. rewrite Hd in Hall. exact Hall.
+  Qed.
+
+  (** the reflection can be checked name by name (the per-name obligations are compiled in parallel) *)
+  Lemma all_ok_nil : forall bad es, all_ok [] bad es = true.
+  Proof.
+    intros bad es. unfold all_ok. apply forallb_forall. intros e _. destruct (listed bad e); reflexivity.
+  Qed.
+  Lemma all_ok_cons : forall a names bad es,
+    all_ok [a] bad es = true -> all_ok names bad es = true -> all_ok (a :: names) bad es = true.
+  Proof.
+    intros a names bad es Ha Hn. unfold all_ok in *. rewrite forallb_forall in *.
+    intros e He. specialize (Ha e He). specialize (Hn e He).
+    destruct (listed bad e); [reflexivity|].
+    cbn [forallb] in *. rewrite andb_true_r in Ha. rewrite Ha. exact Hn.
   Qed.
 
   (** a listed defect is a genuine counterexample of the model: some vector with that key is decided and fails *)
